@@ -175,6 +175,33 @@ def extract():
         if isinstance(n, ast.Assign) and isinstance(n.targets[0], ast.Attribute) and n.targets[0].attr == "_length_exp" and _int(n.value) is not None:
             lexp.append(_int(n.value))
     g["aioLengthExp"] = _one(lexp, "RawSocketProtocol._length_exp")
+    # F12 shape: does WampRawSocketServerProtocol.supports_serializer() call self.abort() (before any session exists)?
+    ss = _find_func(_find_class(aio, "WampRawSocketServerProtocol"), "supports_serializer")
+    aborts = [n for n in ast.walk(ss) if isinstance(n, ast.Call) and isinstance(n.func, ast.Attribute)
+              and n.func.attr in ("abort", "close") and isinstance(n.func.value, ast.Name) and n.func.value.id == "self"]
+    g["aioServerAbortsOnUnsupported"] = bool(aborts)
+    # F14 shape: the exception class an over-long message raises on the asyncio send path:
+    # the guard `… > self.max_length_send` in WampRawSocketMixinGeneral.send(), else the one in PrefixProtocol.sendString()
+    def over_limit_raise(fn):
+        found = []
+        for n in ast.walk(fn):
+            if isinstance(n, ast.If) and isinstance(n.test, ast.Compare) and len(n.test.ops) == 1:
+                names = [m.attr for m in ast.walk(n.test) if isinstance(m, ast.Attribute)]
+                if "max_length_send" not in names:
+                    continue
+                if not isinstance(n.test.ops[0], ast.Gt) or not (isinstance(n.test.comparators[0], ast.Attribute)
+                                                                    and n.test.comparators[0].attr == "max_length_send"):
+                    raise Shape("asyncio send guard is not `<len> > self.max_length_send`")
+                for m in n.body:
+                    if isinstance(m, ast.Raise) and m.exc is not None:
+                        c = m.exc.func if isinstance(m.exc, ast.Call) else m.exc
+                        found.append(c.id if isinstance(c, ast.Name) else getattr(c, "attr", "?"))
+        return found
+    snd_aio = over_limit_raise(_find_func(_find_class(aio, "WampRawSocketMixinGeneral"), "send"))
+    if not snd_aio:
+        snd_aio = over_limit_raise(_find_func(pp, "sendString"))
+    cls = _one(snd_aio, "asyncio over-limit exception class")
+    g["aioSendOverLimitExc"] = {"PayloadExceededError": 0, "ValueError": 1}.get(cls, 2)
     # ------------------------------------------------------------------ wamp/serializer.py
     ser = _parse("wamp/serializer.py")
     objbin = {}
@@ -251,7 +278,9 @@ def render(g):
     L = ["/- GENERATED by translate/wamp_transport.py from /repo/src/autobahn — do not edit. -/",
          "namespace Abverif.Gen.WampTransport", ""]
     for k, v in g.items():
-        if isinstance(v, int):
+        if isinstance(v, bool):
+            L.append(f"def {k} : Bool := {'true' if v else 'false'}")
+        elif isinstance(v, int):
             L.append(f"def {k} : Nat := {v}")
     L.append(f"def wsWord : List Char := {_chars(g['wsWord'])}")
     L.append(f"def wsPrefix : List Char := {_chars(g['wsPrefix'])}")
